@@ -41,3 +41,10 @@ func (ssc *StatefulSetController) VerifProcessNextWorkItem() bool {
 func (ssc *StatefulSetController) VerifQueue() workqueue.RateLimitingInterface {
 	return ssc.queue
 }
+
+// VerifSetQueue replaces the controller's work queue before any item is processed, so that a
+// harness can use the production queue type with a rate limiter whose delays are short enough
+// to observe long sequences of failing reconciles.
+func (ssc *StatefulSetController) VerifSetQueue(q workqueue.RateLimitingInterface) {
+	ssc.queue = q
+}
